@@ -155,10 +155,52 @@ fn res_counts() -> (usize, usize) {
     (maps, fds)
 }
 
-/// `open` / `open0`: the latter runs the two Rust opens with descriptor 0 closed (a client or daemon
+/// runs `f` in a forked child that has dropped to uid/gid 65534 with RLIMIT_MEMLOCK = 0 (an ordinary,
+/// unprivileged client process) and returns the text it produced; `crash <status>` if the child died
+fn in_unprivileged_child(f: impl FnOnce() -> String) -> String {
+    use std::io::Read;
+    use std::os::unix::io::FromRawFd;
+    let mut fds = [0i32; 2];
+    unsafe { if libc::pipe(fds.as_mut_ptr()) != 0 { return "pipe-failed".into(); } }
+    let pid = unsafe { libc::fork() };
+    if pid < 0 { return "fork-failed".into(); }
+    if pid == 0 {
+        unsafe {
+            libc::close(fds[0]);
+            let lim = libc::rlimit { rlim_cur: 0, rlim_max: 0 };
+            libc::setrlimit(libc::RLIMIT_MEMLOCK, &lim);
+            libc::setgroups(0, std::ptr::null());
+            libc::setgid(65534);
+            libc::setuid(65534);
+        }
+        let t = match guarded(std::panic::AssertUnwindSafe(f)) { Ok(t) => t, Err(_) => "panic".to_string() };
+        unsafe { libc::write(fds[1], t.as_ptr() as *const libc::c_void, t.len()); libc::_exit(0); }
+    }
+    unsafe { libc::close(fds[1]); }
+    let mut out = String::new();
+    let mut rd = unsafe { std::fs::File::from_raw_fd(fds[0]) };
+    let _ = rd.read_to_string(&mut out);
+    let mut st = 0i32;
+    unsafe { libc::waitpid(pid, &mut st, 0); }
+    if out.is_empty() { format!("crash {}", st) } else { out }
+}
+
+/// `open` / `open0` / `openu`: the latter runs the two Rust opens with descriptor 0 closed (a client or daemon
 /// started without stdin: `open(2)` then legitimately returns 0)
 fn exec_open(toks: &[&str]) -> String {
     let nofd0 = toks[0] == "open0";
+    if toks[0] == "openu" {
+        // the two Rust opens as an unprivileged process without any lockable memory
+        let (prior, _) = parse_prior(&toks[1..]);
+        let path = seg_path();
+        prepare(&path, &prior);
+        let cpath = CString::new(path.clone()).unwrap();
+        let r1 = in_unprivileged_child(|| match ShmReader::new(cpath.as_c_str()).map(|_| ()) { Ok(()) => "ok".to_string(), Err(e) => shm_err_text(&e) });
+        let p2 = path.clone();
+        let r2 = in_unprivileged_child(move || match ClockBoundClient::new_with_path(&p2).map(|_| ()) { Ok(()) => "ok".to_string(), Err(e) => client_err_text(&e) });
+        let r3 = c_request(&format!("copen {}", path));
+        return format!("{} ; {} ; {}", r1, r2, r3);
+    }
     let (prior, _) = parse_prior(&toks[1..]);
     let path = seg_path();
     prepare(&path, &prior);
@@ -332,7 +374,7 @@ fn exec_sandwich(toks: &[&str]) -> String {
 
 pub fn exec(toks: &[&str], _line: &str) -> Option<String> {
     match toks.first().copied() {
-        Some("open") | Some("open0") => Some(exec_open(toks)),
+        Some("open") | Some("open0") | Some("openu") => Some(exec_open(toks)),
         Some("seg") => Some(exec_seg(toks)),
         Some("snap") => Some(exec_snap(toks)),
         Some("sandwich") => Some(exec_sandwich(toks)),
@@ -470,7 +512,12 @@ pub fn gen_open(seed: u64, count: usize) -> Vec<String> {
     v.push(format!("open0 {}", Prior::File(segment(MAGIC0, MAGIC1, 72, 1, 2, &[1, 2, 3, 4, 5, 6, 7, 1])).text()));
     v.push("open0 missing".to_string());
     v.push(format!("open0 {}", Prior::File(vec![1, 2, 3]).text()));
-    for _ in 0..count { v.push(format!("open {}", random_prior(&mut rng).text())); }
+    // the same opens by an unprivileged process (uid 65534) that may not lock any memory
+    v.push(format!("openu {}", Prior::File(segment(MAGIC0, MAGIC1, 72, 1, 2, &[1, 2, 3, 4, 5, 6, 7, 1])).text()));
+    v.push(format!("openu {}", Prior::File(segment(MAGIC0, MAGIC1, 1 << 20, 1, 2, &[1, 2, 3, 4, 5, 6, 7, 1])).text()));
+    v.push("openu missing".to_string());
+    v.push(format!("openu {}", Prior::File(vec![1, 2, 3]).text()));
+    for i in 0..count { let p = random_prior(&mut rng).text(); if i % 16 == 0 { v.push(format!("openu {}", p)); } v.push(format!("open {}", p)); }
     v
 }
 
